@@ -7,7 +7,7 @@ import gen_ord
 
 PROP = 'C07'
 
-def gen_cases(seed, n, maxlen, cutoff):
+def gen_cases(seed, n, maxlen, cutoff, tier='quick'):
     rng = random.Random(seed)
     cases, dist = [], {}
     # corpus first
@@ -23,6 +23,10 @@ def gen_cases(seed, n, maxlen, cutoff):
         cls, t, s = gen_ord.gen_case(rng, maxlen, cutoff)
         gen_ord.classify(cls, t, s, cutoff, dist)
         cases.append(gen_ord.line(i, t, s))
+    # lopsided / long-run pairs around 256 (and further in the thorough tier): narrow-integer arithmetic only shows there
+    for j, (cls, t, s) in enumerate(gen_ord.gen_wide(random.Random(seed + 3), tier)):
+        gen_ord.classify(cls, t, s, cutoff, dist)
+        cases.append(gen_ord.line(f"w{j}", t, s))
     dist['corpus_cases'] = k
     return cases, dist
 
@@ -76,13 +80,13 @@ def main():
     res = Result(PROP, a.tier, a.seed)
     if a.replay:
         return replay(a.replay)
-    consts = step_translate(res, ['ordered'])
+    consts = step_translate(res, ['ordered', 'arith_ordered'])
     step_proofs(res, PROP, ['props/C07.vo'])
     if a.tier == 'thorough':
         coqchk(res, ['Props.C07'])
     cutoff = min(consts.get('LEVENSHTEIN_CUTOFF', 8), 64)
     n, maxlen = (2500, 90) if a.tier == 'quick' else (12000, 200)
-    cases, dist = gen_cases(a.seed, n, maxlen, cutoff)
+    cases, dist = gen_cases(a.seed, n, maxlen, cutoff, a.tier)
     long_cases = []
     if a.tier == 'thorough':   # long lists (rope rebalancing while patching): oracle on the implementation only (the Peano-nat model is O(n*m*cost))
         rng = random.Random(a.seed + 1)
@@ -90,6 +94,9 @@ def main():
             L = rng.choice([600, 1000, 2500, 5000])
             t = [rng.randrange(6) for _ in range(L)]; s = gen_ord.mutate(rng, t, rng.randint(1, 40), 6)
             long_cases.append(gen_ord.line(f"L{i}", t, s)); dist['long_oracle_only'] = dist.get('long_oracle_only', 0) + 1
+        for i, L in enumerate([65535, 65536, 65537, 70000]):      # past the width of u16: one side tiny, the other huge
+            t = [rng.randrange(6) for _ in range(L)]; few = [rng.randrange(6) for _ in range(rng.randint(0, 5))]
+            long_cases.append(gen_ord.line(f"X{i}a", t, few)); long_cases.append(gen_ord.line(f"X{i}b", few, t)); dist['huge_lopsided_oracle_only'] = dist.get('huge_lopsided_oracle_only', 0) + 2
     casefile = os.path.join(WORK, f'cases_{PROP}_{a.tier}.txt')
     os.makedirs(WORK, exist_ok=True)
     open(casefile, 'w').write('\n'.join(cases) + '\n')
